@@ -217,3 +217,7 @@ def valence_clauses(mol, written_h=None):
 
 
 PROP = C09()
+
+# shape families added after the first complete pass (DESIGN 8.6-8.11); appended to the bounds written into the evidence
+BOUNDS_ADDED = '; plus: P/S between two valences, every template also after pipeline.prelude and through one of pipeline.VARIANTS, sampler configurations with explicit hydrogens / supplied masses / [nH]'
+PROP.BOUNDS = {k: v + BOUNDS_ADDED for k, v in PROP.BOUNDS.items()}
